@@ -64,7 +64,9 @@ def gen_case(rng, tier):
             # the ambient per-thread defaults for new nodes must not leak into a copy
             'ambient': rng.choice(['none', 'none', 'file', 'file_unsafe']),
             'expanded': (emit.emit(doc, style) + alias_expanded) if alias_expanded else None,
-            'merged': rng.random() < 0.3 and not alias_text}
+            'merged': rng.random() < 0.3 and not alias_text,
+            # the tree has been evaluated in place before it is copied (whatever evaluation leaves on the nodes must be copyable too)
+            'used': rng.random() < 0.25, 'api_reserved': rng.choice([None] * 7 + ['items', 'keys', 'update'])}
 
 
 def _despecial(doc):
@@ -82,6 +84,18 @@ def _despecial(doc):
 
 
 def parse(case):
+    t = _parse(case)
+    if t is not None and case.get('used'):
+        from awesomeyaml.eval_context import EvalContext
+        for _ in range(2):
+            try:
+                EvalContext().evaluate(t)
+            except Exception:
+                pass
+    return t
+
+
+def _parse(case):
     from awesomeyaml.builder import Builder
     b = Builder()
     b.add_source(case['text'], raw_yaml=True, safe=case['safe'], filename=case['filename'])
@@ -101,8 +115,17 @@ def parse(case):
         # rebuild through the Python API from the parsed tree's plain view where possible
         from awesomeyaml.nodes.dict import ConfigDict
         from awesomeyaml.nodes.node import ConfigNode
-        t = ConfigDict({'wrapped': t, 'plain': {'x': [1, {'y': 2}], '_u': None}}, priority=ConfigNode.FORCE, delete=False, safe=case['safe'] or None,
-                       metadata={'api': True})
+        plain = {'x': [1, {'y': 2}], '_u': None}
+        if case.get('api_reserved'):
+            # a key named like an attribute of the mapping class: either the tree cannot be built at all (as for assignment), or it can be copied
+            plain['x'][1][case['api_reserved']] = 3
+        try:
+            t = ConfigDict({'wrapped': t, 'plain': plain}, priority=ConfigNode.FORCE, delete=False, safe=case['safe'] or None,
+                           metadata={'api': True})
+        except ValueError:
+            if case.get('api_reserved'):
+                return None
+            raise
     return t
 
 
@@ -239,7 +262,7 @@ def run(case):
         return {'status': 'skip', 'feats': ['unparsable']}
     O1 = o1[1]
     O2 = parse(case)
-    feats = ['method_' + case['method'], 'buildable' if case['buildable'] else 'static', 'safe_src' if case['safe'] else 'unsafe_src'] + (['merged_tree'] if case.get('merged') else [])
+    feats = ['method_' + case['method'], 'buildable' if case['buildable'] else 'static', 'safe_src' if case['safe'] else 'unsafe_src'] + (['merged_tree'] if case.get('merged') else []) + (['evaluated_in_place_before'] if case.get('used') else [])
     if tv(O1) != tv(O2):
         return {'status': 'inconclusive', 'why': 'two parses of the same text differ: the round-trip oracle is unusable for this case'}
     vio = []
